@@ -15,7 +15,8 @@ import (
 // selftest proves determinism: every batch seed is executed in its own process
 // under {plain, race} x GOMAXPROCS {1, 4, 16} x 2 repetitions, and the complete
 // event log (trace hash of every (task, site) step and switch, result hash of
-// every operation, schedule signature) must be identical across all twelve.
+// every operation, schedule signature) must be identical across all twelve - except that a volume run, which
+// makes fewer calls in the race build, is compared within its build flavour (six executions) only.
 func selftest(repo string, seeds int) int {
 	logf := func(f string, a ...interface{}) { fmt.Fprintf(os.Stderr, "[selftest] "+f+"\n", a...) }
 	b, err := buildAll(repo, true)
@@ -42,7 +43,8 @@ func selftest(repo string, seeds int) int {
 			}
 		}
 	}
-	logs := make([]string, len(jobs))
+	logs := make([]string, len(jobs))   // complete event summary of each execution
+	common := make([]string, len(jobs)) // the same without volume runs
 	var mu sync.Mutex
 	next := 0
 	var wg sync.WaitGroup
@@ -62,12 +64,20 @@ func selftest(repo string, seeds int) int {
 				j := jobs[i]
 				r := runWorkerWith(b, j.race, []string{"-batch", fmt.Sprint(j.seed), "-runs", "12", "-tier", "quick"},
 					filepath.Join(b.Scratch, fmt.Sprintf("st-race-%d", i)), 5*time.Minute, j.procs)
-				var sb strings.Builder
+				var sb, sc strings.Builder
 				fmt.Fprintf(&sb, "exit=%d viol=%v\n", r.ExitCode, r.Viol != nil)
+				fmt.Fprintf(&sc, "exit=%d viol=%v\n", r.ExitCode, r.Viol != nil)
 				for _, d := range r.Done {
-					fmt.Fprintf(&sb, "%d %d %s %s %s %d %d %d\n", d.Run, d.Seed, d.Sig, d.TraceHash, d.ResHash, d.Steps, d.Switches, d.Inflight)
+					line := fmt.Sprintf("%d %d %s %s %s %d %d %d\n", d.Run, d.Seed, d.Sig, d.TraceHash, d.ResHash, d.Steps, d.Switches, d.Inflight)
+					sb.WriteString(line)
+					if d.Mode != "volume" {
+						// a volume run makes fewer calls in the race build (on purpose: quantities are the plain build's
+						// business): its trace is compared within one build flavour only
+						sc.WriteString(line)
+					}
 				}
 				logs[i] = sb.String()
+				common[i] = sc.String()
 			}
 		}()
 	}
@@ -84,11 +94,18 @@ func selftest(repo string, seeds int) int {
 	sort.Slice(seedsList, func(a, c int) bool { return seedsList[a] < seedsList[c] })
 	for _, s := range seedsList {
 		idx := bySeed[s]
+		firstOf := map[bool]int{}
+		for _, i := range idx {
+			if _, ok := firstOf[jobs[i].race]; !ok {
+				firstOf[jobs[i].race] = i
+			}
+		}
 		for _, i := range idx[1:] {
-			if logs[i] != logs[idx[0]] {
+			ref := firstOf[jobs[i].race]
+			if common[i] != common[idx[0]] || logs[i] != logs[ref] {
 				bad++
 				j := jobs[i]
-				logf("DIVERGENCE seed=%d race=%v GOMAXPROCS=%s rep=%d\n--- reference\n%s--- got\n%s", s, j.race, j.procs, j.rep, logs[idx[0]], logs[i])
+				logf("DIVERGENCE seed=%d race=%v GOMAXPROCS=%s rep=%d\n--- reference\n%s--- got\n%s", s, j.race, j.procs, j.rep, logs[ref], logs[i])
 				break
 			}
 		}
